@@ -137,28 +137,35 @@ func newPG(t *rapid.T, budget int, limit, wantInf bool) *PG {
 	g := &PG{t: t, budget: budget, limit: limit, wantInf: wantInf, maxDepth: 4}
 	g.kinds = []string{"tx"}
 	for _, k := range allKinds[1:] {
-		if rapid.IntRange(0, 2).Draw(t, "feat_"+k) > 0 {
+		if rapid.IntRange(0, 2).Draw(t, "feat_"+k) > 0 || (k == "recurse" && limit) {
 			g.kinds = append(g.kinds, k)
 		}
 	}
 	return g
 }
 
-// Program renders a whole program.
-func (g *PG) Program() string {
-	body := g.block(genCtx{}, 1, 6)
+// Parts renders a whole program as (hoisted global function declarations, body).
+func (g *PG) Parts() (decls, body string) {
+	body = g.block(genCtx{}, 1, 6)
 	if g.wantInf && !g.infDone {
 		body += g.infinite(genCtx{})
 	}
 	var b strings.Builder
-	b.WriteString("var t;\n")
 	for _, d := range g.decls {
 		b.WriteString(d)
 		b.WriteString("\n")
 	}
-	b.WriteString(body)
-	b.WriteString("\nS.n;\n")
-	return b.String()
+	return b.String(), body
+}
+
+// assemble builds the texts actually submitted: for entry "run" one program;
+// for the other entries a definition stage plus a function __main invoked
+// through another API route.
+func assemble(decls, body, entry string) (define, main string) {
+	if entry == "" || entry == "run" {
+		return "", "var t;\n" + decls + body + "\nS.n;\n"
+	}
+	return decls + "function __main(){var t;\n" + body + "\nreturn S.n;}\n", "__main"
 }
 
 func (g *PG) block(c genCtx, lo, hi int) string {
@@ -377,9 +384,13 @@ func (g *PG) stmt(c genCtx) string {
 	case "recurse":
 		r := g.id("r")
 		fb := g.fnBody(c)
-		if g.limit && g.n(0, 2, "unbounded") == 2 {
-			// unbounded recursion: legal only because a depth limit is configured
-			g.decls = append(g.decls, "function "+r+"(n){var t;"+fb+"return "+r+"(n+1)+1;}")
+		if g.limit && g.n(0, 2, "unbounded") >= 1 {
+			// unbounded recursion: legal only because a depth limit is configured.
+			// The recursive call goes through one of many call forms: each must be
+			// stopped by the limit.
+			forms := recursionForms(r)
+			f := forms[g.n(0, len(forms)-1, "recform")]
+			g.decls = append(g.decls, "function "+r+"(n){var t;"+fb+"return "+f+";}")
 			return "try{" + r + "(0)}catch(re){emit('r',0,(re instanceof RangeError)?1:0);}"
 		}
 		g.decls = append(g.decls, "function "+r+"(n){var t;if(n<=0||F--<=0)return 0;"+fb+"return "+r+"(n-1)+1;}")
@@ -494,6 +505,36 @@ func (g *PG) callback(c genCtx) string {
 		return "JSON.parse('[1,2]',function(k,v){" + fb + "return v});"
 	default:
 		return "[1,2].some(function(x){" + fb + "return false});"
+	}
+}
+
+// recursionForms lists the call forms through which a function named r can
+// call itself; under a stack depth limit every one of them must be stopped.
+func recursionForms(r string) []string {
+	return []string{
+		r + "(n+1)",
+		r + ".call(null,n+1)",
+		r + ".apply(null,[n+1])",
+		r + ".bind(null,n+1)()",
+		"new " + r + "(n+1)",
+		"eval('" + r + "(1)')",
+		"(0,eval)('" + r + "(1)')",
+		"hrun('" + r + "(1)')",
+		"hcall('" + r + "',1)",
+		"hvcall(" + r + ",1)",
+		"heval('" + r + "(1)')",
+		"[1].map(function(){return " + r + "(n+1)})[0]",
+		"({get g(){return " + r + "(n+1)}}).g",
+		"+{valueOf:function(){return " + r + "(n+1)}}",
+		"JSON.stringify({toJSON:function(){return " + r + "(n+1)}})",
+		"Function('return " + r + "(1)')()",
+		"[2,1].sort(function(){return " + r + "(n+1)})",
+		"'a'.replace(/a/,function(){return " + r + "(n+1)})",
+		"hobj(" + r + ")",
+		"[1].forEach(function(){" + r + "(n+1)})",
+		"JSON.parse('[1]',function(k,v){return " + r + "(n+1)})",
+		"Object.defineProperty({},'p',{get:function(){return " + r + "(n+1)}}).p",
+		"(''+{toString:function(){return " + r + "(n+1)}})",
 	}
 }
 
